@@ -55,6 +55,23 @@ def grammar(depth3_sample, rng):
     return out + L3
 
 
+def neg_stacks():
+    """stacks of 2..5 negations over every shape the pre-split transformation rewrites (and over those it must leave alone),
+    at top level, as a conjunct, below a negated disjunction and inside a universal quantifier"""
+    out = []
+    inner = [('bin', 'or', B, C), ('bin', 'implies', B, C), ('bin', 'and', B, C), ('bin', 'iff', B, C), B, XP,
+             ('quant', 'some', 'i', XS, USE), ('quant', 'some', 'i', XS, ('bin', 'and', USE, B)),
+             ('quant', 'all', 'i', XS, ('bin', 'and', USE, B)), ('quant', 'all', 'i', XS, ('bin', 'or', USE, B)),
+             ('quant', 'all', 'i', XS, ('un', 'not', ('un', 'not', ('bin', 'and', USE, B))))]
+    for e in inner:
+        for k in range(2, 6):
+            n = e
+            for _ in range(k):
+                n = ('un', 'not', n)
+            out += [n, ('bin', 'and', C, n), ('bin', 'and', n, XP), ('un', 'not', ('bin', 'or', C, n)), ('quant', 'all', 'k', XS, ('bin', 'and', ('bin', '<', ('var', 'k'), int_lit(2)), n))]
+    return out
+
+
 def grid_envs():
     envs = []
     for b, c, x in itertools.product([True, False], [True, False], [1, -1]):
@@ -85,6 +102,7 @@ def run(ctx):
         head = forms[:140]
         rest = forms[140:]
         forms = head + rng.sample(rest, min(len(rest), 1600))
+    forms = forms + neg_stacks()
     rejects = 0
     for r in forms:
         try:
